@@ -25,7 +25,8 @@ from stabilize.queue.messages import MESSAGE_TYPES  # noqa: E402
 
 _CREATED = _dt.datetime(2024, 1, 1)
 ST = list(WorkflowStatus)
-STRS = ["", "a", "ü \"'\\", "x" * 300]
+STRS = ["", "a", "ü \"'\\", "x" * 300, "CANCELED", "STAGE_AFTER", "null"]  # the last three: free text that spells an enum member / a JSON literal
+MSG_STRS = ["", "a", "ü \"'\\", "RUNNING", "STAGE_BEFORE", "true"]
 JT = list(JoinType)
 SP = list(SplitType)
 OWN = [None, SyntheticStageOwner.STAGE_BEFORE, SyntheticStageOwner.STAGE_AFTER]
@@ -253,7 +254,7 @@ def _fill(cls, i1, i2, b, s: str, st, ost, phase):
         elif n in ("jump_context", "jump_outputs", "signal_data", "instance_context"):
             kw[n] = {"i": i2, "b": b, "s": s, "nest": {"l": [i1, s], "n": None}}
         elif f.type in ("str", str) or "str" in str(f.type):
-            kw[n] = n + ":" + s
+            kw[n] = s if s in ("RUNNING", "STAGE_BEFORE", "true") else n + ":" + s  # free text that spells an enum member stays text
         else:
             raise hx.HarnessError("message field %s.%s of unknown kind %r" % (cls.__name__, n, f.type))
     return cls(created_at=_CREATED, **kw), kw
@@ -262,7 +263,7 @@ def _fill(cls, i1, i2, b, s: str, st, ost, phase):
 def _message(ck, via_txn: bool, i1, i2, b, sk, stk, ostk, phk, name: str) -> bool:
     with hx.Path(name) as P:
         cls = MESSAGE_TYPES[CLASSES[hx.pick(ck, len(CLASSES))]]
-        s = STRS[hx.pick(sk, 3)]
+        s = MSG_STRS[hx.pick(sk, len(MSG_STRS))]
         has_status = any(f.name == "status" for f in dataclasses.fields(cls))
         st = ST[hx.pick(stk, 12)] if has_status else ST[4]
         ok_ = hx.pick(ostk, 13) if has_status else 0
@@ -341,7 +342,7 @@ META = {
                   "src/stabilize/persistence/sqlite/helpers.py:insert_stage/upsert_task", "src/stabilize/persistence/sqlite/converters.py:execution_to_dict/row_to_execution/row_to_stage/row_to_task",
                   "src/stabilize/queue/sqlite/serialization.py:serialize_message/deserialize_message", "src/stabilize/persistence/sqlite/transaction.py:AtomicTransaction.push_message",
                   "src/stabilize/queue/sqlite/queue.py:push/poll_one", "src/stabilize/queue/messages.py:create_message_from_dict"],
-    "bounds": ["workflow of 2 stages / 2 tasks; integer and boolean fields and dict leaves symbolic (unbounded ints); strings from {'', 'a', non-ASCII+quotes+backslash, 300 chars}; every WorkflowStatus / JoinType / SplitType / SyntheticStageOwner / WorkflowType member (one dimension at a time + combinations listed in the harness)",
+    "bounds": ["workflow of 2 stages / 2 tasks; integer and boolean fields and dict leaves symbolic (unbounded ints); strings from {'', 'a', non-ASCII+quotes+backslash, 300 chars, and free text spelling an enum member name or a JSON literal}; every WorkflowStatus / JoinType / SplitType / SyntheticStageOwner / WorkflowType member (one dimension at a time + combinations listed in the harness)",
                "a stored stage saved again twice (plain store_stage and inside a transaction) with cleared / falsy / new values of every updatable stage and task field, every ordered pair, integer values symbolic",
                "every class of MESSAGE_TYPES, pushed directly and inside a transaction; CompleteTask with every status x original_status"],
     "stubs": ["json: dumps/loads replaced by a value-carrying stub with the contract loads(dumps(x)) == x (CPython's json, unicode escaping, floats are outside)",
